@@ -1,0 +1,17 @@
+//go:build verif
+
+package shaping
+
+import "golang.org/x/image/math/fixed"
+
+// VerifLetterSpacing exposes the two unexported letter spacing fields of a
+// glyph (runtime monitors only; pure accessor).
+func VerifLetterSpacing(g Glyph) (start, end fixed.Int26_6) {
+	return g.startLetterSpacing, g.endLetterSpacing
+}
+
+// VerifSetLetterSpacing sets the two unexported letter spacing fields, so that
+// a monitor can deep-copy glyphs produced by AddSpacing.
+func VerifSetLetterSpacing(g *Glyph, start, end fixed.Int26_6) {
+	g.startLetterSpacing, g.endLetterSpacing = start, end
+}
